@@ -19,6 +19,7 @@ EQUIV_DEPS = {
     'Equiv_gosper': ['Gen_gosper_c'],
     'Equiv_guards': ['Gen_util_guards'],
     'Equiv_zmat': ['Gen_zmatrix_py'],
+    'Equiv_zmat_c': ['Gen_zmatrix_py', 'Gen_zmatrix_c'],
 }
 
 TRUSTED_BASE_COMMON = [
